@@ -225,6 +225,23 @@ pub fn run_case(id: &str, case: &Value) -> Value {
                     }
                 }
             }
+            // code tables of the typed messages: which code values each from_u8 / from_values accepts, and that code_u8 gives the value back
+            "codes" => {
+                let mut acc: Vec<Vec<i64>> = vec![vec![]; 8];
+                let mut round = 1;
+                for c in 0..=255u8 {
+                    if let Some(x) = icmpv4::DestUnreachableHeader::from_values(c, 0x1234) { acc[0].push(c as i64); if x.code_u8() != c { round = 0; } }
+                    if let Some(x) = icmpv4::RedirectCode::from_u8(c) { acc[1].push(c as i64); if x.code_u8() != c { round = 0; } }
+                    if let Some(x) = icmpv4::TimeExceededCode::from_u8(c) { acc[2].push(c as i64); if x.code_u8() != c { round = 0; } }
+                    if icmpv4::ParameterProblemHeader::from_values(c, 7).is_some() { acc[3].push(c as i64); }
+                    if let Some(x) = icmpv6::DestUnreachableCode::from_u8(c) { acc[4].push(c as i64); if x.code_u8() != c { round = 0; } }
+                    if let Some(x) = icmpv6::TimeExceededCode::from_u8(c) { acc[5].push(c as i64); if x.code_u8() != c { round = 0; } }
+                    if let Some(x) = icmpv6::ParameterProblemCode::from_u8(c) { acc[6].push(c as i64); if x.code_u8() != c { round = 0; } }
+                    if u8::from(icmpv6::NdpOptionType::from(c)) != c || icmpv6::NdpOptionType(c).0 != c { round = 0; }
+                }
+                json!({"ev": "codes", "id": id, "v4_dest": acc[0], "v4_redirect": acc[1], "v4_time": acc[2], "v4_param": acc[3],
+                       "v6_dest": acc[4], "v6_time": acc[5], "v6_param": acc[6], "round": round})
+            }
             other => panic!("unknown ctl case {}", other),
         }
     }));
